@@ -42,6 +42,9 @@ CHECKS = {
  "C13": ("DESIGN.md section 5 C13",
    "Router side: one attachment step (the real Router.addNIC / assignIPAddress / IPNet.Contains code) from an arbitrary router state - subnet 10.b.c.0/24 (thorough: /16, /28) with symbolic b, c, arbitrary automatic counter, two NICs already attached at arbitrary addresses of the subnet, the new NIC with 0, 1 or 2 arbitrary static addresses: an automatically assigned address is not held by another NIC, lies inside the subnet and is registered for the new NIC, existing NICs keep their addresses, static addresses outside the subnet are refused. Host side: bounded histories of bind / look-up / release on the real socket table (udpConnMap) with a symbolic choice among two specific IPs and the wildcard and two ports per operation, against a reference model of the open (IP, port) pairs: a bind succeeds exactly when no open socket covers the address, a look-up returns exactly the covering socket, release frees the address.",
    "The router step is inductive over histories of any length for the stated state shape (two attached NICs); the host side is bounded to 3 (5) operations and exercises the socket table directly (Net.ListenUDP / DialUDP / assignPort call into it; their own address-ownership test and the 5000-5999 ephemeral search are outside this check). Map keys are strings of the Str datatype (IP.String injective)."),
+ "C18": ("DESIGN.md section 5 C18",
+   "SMT check of the real test.Bridge and dpipe code over bounded scripted histories with the operation, its direction and its arguments as solver variables. Bridge: writes in both directions through bridgeConn.Write/Bridge.Push (1..3 symbolic bytes, the writer's slice overwritten afterwards), DropNextNWrites, ReorderNextNWrites (also repeatedly: dedicated run), Drop, Reorder, Filter; after every operation the two per-direction queues (what Tick hands to readers one message per call) are compared with a reference model: exactly the written messages minus dropped/filtered ones, in the scripted order, boundaries and bytes unchanged, no duplicate, no invented message. dpipe: Write/Read/Close on either end against per-direction FIFO queues: one message per read, cut only to the reader's slice, unmodified, in order, Close of one end does not disturb reads on the other.",
+   "Bounded: 3 (thorough 4) Bridge operations, 4 (5) dpipe operations; helper preconditions assumed (Drop offset within the queue, Reorder with >= 2 queued messages, no new ReorderNextNWrites while one is collecting); the hand-over of the queued messages to blocked readers by Tick and the endpoints' deadlines are exercised by C10, not here."),
 }
 
 def main():
